@@ -29,6 +29,20 @@ OFFSET_FUNCS = [
     "find._extract_id_citation", "find._extract_supra_citation", "find._extract_shortform_citation", "find._extract_full_citation",
 ]
 OFFSET_CONTRACTS = ["a_common", "c18_helpers", "helpers", "find"]
+# the top-level composition: get_citations = tokenize; extract per token; reference extraction; filter_citations; remove_ambiguous
+API_CONTRACTS = ["a_common", "c18_helpers", "helpers", "filter", "find", "refs", "annotate", "tokenizers", "zz_getcit"]
+API_FUNCS = ["find.extract_pincited_reference_citations", "find.find_reference_citations_from_markup", "find.extract_reference_citations",
+             "helpers.filter_citations", "helpers.disambiguate_reporters", "find.get_citations"]
+API_PINS = ["models.Document.__post_init__", "models.Document.tokenize", "utils.is_valid_name"]
+API_ASSUMPTIONS = [
+    "get_citations is verified against: Document(...) and Document.tokenize as ASSUMED contracts (pinned by SHA-256): the cleaned text, the two SpanUpdaters (invariant "
+    "proved for SpanUpdater.__init__), PART + INDEXES (the proved postconditions of Tokenizer.tokenize, C12), NONL and the token data invariants of the shipped extractors "
+    "(edition lists well formed and from one of the three databases; a short-form token has a page group that is a suffix of its text; stop-word tokens carry their group; "
+    "every token has a groups dict)",
+    "domain of get_citations' contract: steps_valid(markup_text, clean_steps) (the documented domain: known cleaner names, 'html' among them when markup is given -- outside "
+    "it Document.__post_init__ raises), plain_text != 'eyecite' (known finding C02-4), tokenizer is a Tokenizer",
+    "ROUNDTRIP (consistency of the two diffs of a Document) is assumed for the placement of markup-derived references",
+]
 PART_ASSUMPTION = ("PART(words, text, offs): the token list partitions the document text pointwise over a ghost offset array "
                    "(a precondition here; it is the postcondition of Tokenizer.tokenize, C12)")
 NONL_ASSUMPTION = "plain-string words contain no newline (every newline is a ParagraphToken of the shipped extractors)"
@@ -159,7 +173,7 @@ PROPS = {
                  "models.CitationBase.__post_init__", "models.ResourceCitation.__post_init__", "models.CitationToken.__post_init__", "helpers.get_court_by_paren",
                  "utils.strip_punct", "utils.is_balanced_html", "utils.wrap_html_tags", "annotate.SpanUpdater.get_diff_steps", "annotate.SpanUpdater.get_diff_steps_builtin",
                  "models.Document.__post_init__", "models.Document.tokenize"],
-        "contracts": ["a_common", "c18_helpers", "helpers", "find", "filter", "refs", "resolve", "annotate", "tokenizers"],
+        "contracts": ["a_common", "c18_helpers", "helpers", "find", "filter", "refs", "resolve", "annotate", "tokenizers", "zz_getcit"],
         "functions": "ALL_NORAISE",
         "assumptions": ["exception freedom is proved per function under the class/type invariants stated as preconditions (each asserted at the call sites that are under contract); "
                         "MemoryError, RecursionError, KeyboardInterrupt are outside every noraise contract",
@@ -167,8 +181,9 @@ PROPS = {
                         "fast_diff_match_patch.diff: none; ahocorasick iter: none (non-empty automaton)",
                         REGEX_LEMMAS, PART_ASSUMPTION, NONL_ASSUMPTION, CIT_WF, DEFAULT_RESOLVERS,
                         "annotate_citations is proved for the documented domain (spans inside the text, annotator None, mode one of the three literals)"],
-        "not_covered": ["the collecting loop of find.get_citations, Tokenizer.tokenize (proved for C12 without the no-raise flag), extract_reference_citations / "
-                        "find_reference_citations_from_markup, Document.__post_init__, the Aho-Corasick and Hyperscan tokenizer bodies (generators / C libraries): bounded stand-in only",
+        "not_covered": ["Tokenizer.tokenize (proved for C12 without the no-raise flag), Document.__post_init__ (assumed no-raise on the documented domain steps_valid), "
+                        "the Aho-Corasick and Hyperscan tokenizer bodies (generators / C libraries): bounded stand-in only; get_citations itself, extract_reference_citations and "
+                        "find_reference_citations_from_markup ARE under no-raise contracts",
                         "the Hyperscan cache path (C14, not applicable)"],
     },
     "C06": {
@@ -204,24 +219,27 @@ PROPS = {
         "extra_names": ["reads_only_current"],
     },
     "C02": {
-        "pins": ['models.CitationBase.__post_init__', 'models.ResourceCitation.__post_init__', 'helpers.get_court_by_paren'],
-        "contracts": OFFSET_CONTRACTS,
-        "functions": OFFSET_FUNCS,
+        "pins": ['models.CitationBase.__post_init__', 'models.ResourceCitation.__post_init__', 'helpers.get_court_by_paren'] + API_PINS,
+        "contracts": API_CONTRACTS,
+        "functions": OFFSET_FUNCS + API_FUNCS,
         "assumptions": [PART_ASSUMPTION, NONL_ASSUMPTION, REGEX_LEMMAS,
                         "E-DATACLASS-CTOR: the dataclass-generated constructors (+ __post_init__) of citation/token classes set the declared fields",
-                        "the class invariant SPANS is proved at every construction site (_extract_* and the add_metadata chain); "
-                        "the collecting loop of get_citations, filter_citations and the reference-citation extractors are covered under C03/C19"],
-        "not_covered": ["the easter-egg path of get_citations (plain_text == 'eyecite' returns a canned citation with span (0, 99))",
-                        "markup mode (offsets w.r.t. the cleaned text) is covered under C19's offsets_valid clause"],
+                        "the class invariant SPANS is proved at every construction site (_extract_*, the add_metadata chain, both reference extractors, UnknownCitation) and carried "
+                        "by the loop invariant of get_citations through filter_citations (nothing invented) and remove_ambiguous (a filter) to EVERY returned citation, "
+                        "in plain and in markup mode (offsets w.r.t. the cleaned text)"] + API_ASSUMPTIONS,
+        "not_covered": ["the easter-egg path of get_citations (plain_text == 'eyecite' returns a canned citation with span (0, 99)): excluded by precondition, known finding C02-4",
+                        "PIN_IN (the pin-cite text lies inside the pin-cite span) is proved per extractor but not carried through get_citations' loop invariant"],
     },
     "C03": {
-        "pins": [],
-        "contracts": ["a_common", "c18_helpers", "helpers", "filter"],
-        "functions": ["helpers.overlapping_citations", "models.CitationBase.span", "models.CitationBase.full_span", "helpers.filter_citations"],
+        "pins": API_PINS,
+        "contracts": API_CONTRACTS,
+        "functions": ["helpers.overlapping_citations", "models.CitationBase.span", "models.CitationBase.full_span", "helpers.filter_citations",
+                      "helpers.disambiguate_reporters", "find.get_citations"],
         "assumptions": ["every element of the list is a well-formed citation object (cit_wf)",
                         "E-DICT-DEDUPE: list({c.span(): c for c in cs}.values()) keeps for every span the last element with that span; spans of the result are pairwise distinct",
                         "E-SORTED: sorted() is a stable permutation with non-decreasing keys",
-                        "keeps_non_references is proved with the carve-out 'no later element of the list has the identical span' (known finding C03-2)"],
+                        "keeps_non_references: a non-reference citation is kept unless a later NON-reference citation has the identical span (after fix 9b8e589)",
+                        "ordered_by_span / distinct_spans are postconditions of get_citations itself (carried from filter_citations through remove_ambiguous)"] + API_ASSUMPTIONS[:2],
         "not_covered": ["spans_disjoint (no two returned spans overlap) needs the disjointness of token-derived spans (C12 + C02's extension bound) and is checked by the bounded stand-in only",
                         "idempotence of filter_citations is checked by the bounded stand-in only"],
     },
@@ -328,12 +346,14 @@ PROPS = {
                         "joint extent of parallel citations is covered by the equality of full-span starts (copies_when_joined), not by a substring clause"],
     },
     "C18": {
-        "pins": ['models.CitationBase.__post_init__', 'models.ResourceCitation.__post_init__', 'helpers.get_court_by_paren'],
-        "contracts": OFFSET_CONTRACTS,
+        "pins": ['models.CitationBase.__post_init__', 'models.ResourceCitation.__post_init__', 'helpers.get_court_by_paren'] + API_PINS,
+        "contracts": API_CONTRACTS,
         "functions": ["helpers.get_year", "models.Edition.includes_year", "models.ResourceCitation.guess_edition",
-                      "helpers.disambiguate_reporters", "models.FullCaseCitation.is_parallel_citation"] + OFFSET_FUNCS,
+                      "helpers.disambiguate_reporters", "models.FullCaseCitation.is_parallel_citation"] + OFFSET_FUNCS + ["find.get_citations"],
         "assumptions": ["_highest_valid_year is a symbolic integer (date.today().year + 1 at import time)",
-                        "datetime.now().year is a symbolic integer read from an external object"],
-        "not_covered": [],
+                        "datetime.now().year is a symbolic integer read from an external object",
+                        "year soundness of every returned full case citation is a postcondition of get_citations (clause `years`, carried by its loop invariant through "
+                        "is_parallel_citation, filter_citations and remove_ambiguous)"] + API_ASSUMPTIONS[:2],
+        "not_covered": ["year soundness of returned law/journal citations is proved at their construction (add_metadata) but not carried through get_citations' invariant"],
     },
 }
